@@ -5,6 +5,7 @@ Open Scope Q_scope.
    CProd: slices of a tensor along the reduced axis (the harness moves the
      reduced axis last and flattens the rest), the upstream gradient per slice,
      the implementation's forward value per slice and its gradient per slice.
+   CProd64: the same on a float64 tensor (compared with tolerance 1e-9).
    CHyper / CSimplex: a Lattice layer (sizes, clip_inputs, input form), one input
      point per unit, and for each of several kernels the tape gradient of
      output u w.r.t. kernel column u (one row per unit).
@@ -17,6 +18,7 @@ Open Scope Q_scope.
      input that sits on a kink of its interpolation weights). *)
 Inductive case :=
 | CProd (rows : list (list Q)) (dys : list Q) (fwd : list Q) (grad : list (list Q))
+| CProd64 (rows : list (list Q)) (dys : list Q) (fwd : list Q) (grad : list (list Q))
 | CHyper (clip as_list : bool) (sizes : list nat) (xs : list (list Q)) (grads : list (list (list Q)))
 | CSimplex (clip : bool) (sizes : list nat) (xs : list (list Q)) (grads : list (list (list Q)))
 | CPwl (cyclic : bool) (kps lens : list Q) (xs : list Q) (missing : list Q) (grads : list (list (list Q)))
@@ -50,6 +52,10 @@ Definition check (c : case) : bool :=
   | CProd rows dys fwd grad =>
       qlist_close tol32 (map prod rows) fwd &&
       qmat_close tol32 (map2 grad_prod_dy dys rows) grad &&
+      Nat.eqb (length dys) (length rows)
+  | CProd64 rows dys fwd grad =>
+      qlist_close tol64 (map prod rows) fwd &&
+      qmat_close tol64 (map2 grad_prod_dy dys rows) grad &&
       Nat.eqb (length dys) (length rows)
   | CHyper clip as_list sizes xs grads =>
       all_close tol64 (map (hyper_weights clip as_list sizes) xs) grads
